@@ -109,6 +109,13 @@ func perturbations(et int32, bits []int) []pert {
 		}, "reject", "reject"},
 		{"enc-part-other-usage", func(r *simkdc.Reply, et int32, w *cworld.World) { r.EncUsage = otherUsage(r.EncEtype, r.EncUsage) }, "reject", "reject"},
 		{"enc-part-usage-ticket", func(r *simkdc.Reply, et int32, w *cworld.World) { r.EncUsage = 2 }, "reject", "reject"},
+		// the sub-key usage although the request had no sub-key (rc4 treats 8 and 9 alike, RFC 4757)
+		{"enc-part-usage-9-without-subkey", func(r *simkdc.Reply, et int32, w *cworld.World) { r.EncUsage = 9 }, map[bool]string{true: "nj", false: "reject"}[et == rcrypto.RC4], map[bool]string{true: "nj", false: "reject"}[et == rcrypto.RC4]},
+		{"enc-part-usage-8-for-as", func(r *simkdc.Reply, et int32, w *cworld.World) {
+			if r.Exchange == "AS" {
+				r.EncUsage = 8
+			}
+		}, map[bool]string{true: "nj", false: "reject"}[et == rcrypto.RC4], "accept"},
 		{"enc-part-etype-label", func(r *simkdc.Reply, et int32, w *cworld.World) {
 			r.Rep.Enc = krbmsg.EncryptedData{EType: otherEtype(r.EncEtype), Cipher: []byte{}}
 		}, "nj", "nj"},
@@ -535,7 +542,9 @@ func krbErrors(c *engine.Ctx, evals *int64) {
 		codes = append(codes, i)
 	}
 	codes = append(codes, 127, 200, 2147483647)
-	for _, exch := range []string{"AS", "TGS", "AS+PA"} {
+	for _, exch := range []string{"AS", "TGS", "AS+PA", "AS+etext", "TGS+etext"} {
+		etext := strings.HasSuffix(exch, "+etext")
+		exch := strings.TrimSuffix(exch, "+etext")
 		for _, code := range codes {
 			o := cworld.DefaultOpts()
 			if exch == "AS+PA" {
@@ -561,8 +570,11 @@ func krbErrors(c *engine.Ctx, evals *int64) {
 			}
 			for _, k := range w.AllKDCs() {
 				k.ErrorReply = answer
+				if etext {
+					k.ErrorEText = "a text from the KDC that says nothing about numbers"
+				}
 			}
-			rec := map[string]interface{}{"exchange": exch, "error_code": code}
+			rec := map[string]interface{}{"exchange": exch, "error_code": code, "kdc_sends_e_text": etext}
 			*evals++
 			var err error
 			pn := safe(func() {
@@ -585,11 +597,15 @@ func krbErrors(c *engine.Ctx, evals *int64) {
 			case err == nil:
 				c.Violate("krberror", fmt.Sprintf("krb-error-ignored:%s", exch), nil, rec)
 			case !carriesCode(err, code):
-				c.Violate("krberror", fmt.Sprintf("error-does-not-carry-the-code:%s:%s", exch, codeClass(code)), map[string]interface{}{"err": trunc(err.Error())}, rec)
+				key := fmt.Sprintf("error-does-not-carry-the-code:%s:%s", exch, codeClass(code))
+				if etext {
+					key += ":with-e-text"
+				}
+				c.Violate("krberror", key, map[string]interface{}{"err": trunc(err.Error())}, rec)
 			case nreq > 12:
 				c.Violate("krberror", fmt.Sprintf("unbounded-retries:%s:%d", exch, code), map[string]interface{}{"requests": nreq}, rec)
 			default:
-				c.Distinct(fmt.Sprintf("krberr/%s/%d", exch, code))
+				c.Distinct(fmt.Sprintf("krberr/%s/%d/%v", exch, code, etext))
 			}
 		}
 	}
